@@ -31,6 +31,16 @@ def run(ctx):
             "XML, size (n+2b)*box/10 mm, one shape per dark module in row-major order and none for light ones, each centred on its "
             "cell and not larger than it, background rect only for the fill variants, save() and to_string() serialise the same "
             "tree. distinct = distinct (factory, drawers, version, box, border, payload)")
+    # ---- P2: units() text vs Model.units for pixel values num/den (den | 40: exact in Decimal), incl. rounding ties at 0.0005 mm
+    from decimal import Decimal as Dec
+    uq = qrcode.QRCode(version=1); uq.add_data("u")
+    uim = uq.make_image(image_factory=S.SvgFragmentImage)
+    ureq, uexp = [], []
+    for den in (1, 2, 4, 5, 8, 10, 20, 40, 200, 400, 2000):
+        for num in list(range(0, 120)) + [rnd.randrange(0, 40000) for _ in range(150 if tier == "thorough" else 40)]:
+            ureq.append(f"units {num} {den}"); uexp.append("ok " + uim.units(Dec(num) / Dec(den)))
+    for rq, e, g in zip(ureq, uexp, ask(ureq)):
+        R.corr("units", rq, e, g, tag="P2:units")
     facs = [("fragment", S.SvgFragmentImage), ("image", S.SvgImage), ("fill", S.SvgFillImage), ("path", S.SvgPathImage), ("pathfill", S.SvgPathFillImage)]
     cases = []
     versions = [1, 2, 3, 4, 6, 7, 20] if tier == "thorough" else [1, 2, 7]
